@@ -33,6 +33,11 @@ def variants(rng, text, toks, full):
         for c in (b"/*c*/", b"//c\n", b"/* * / ** */", b"/**/", b"/***/", b"/* c **/", b"//\n"):
             if full or rng.random() < 0.5:
                 yield "comment", ctx, text[:pos] + c + text[pos:], True, None
+        if gi == n:
+            # a line comment that runs to the end of the text (no newline) after the complete value
+            for c in (b"//c", b" // done", b"//"):
+                if full or rng.random() < 0.5:
+                    yield "comment", "after-last-to-end-of-text", text + c, True, None
     for ti, t in enumerate(toks):
         raw = text[t.start:t.end]
         ctx = context_of(t)
@@ -109,7 +114,7 @@ def shard_fn(shard, nshards, seed, tier, exe, ndocs):
             if kind == "trailing-garbage":
                 cmds.append("P %d 0 1 x%s" % (3 | u8, h))
             # (not for forms that FOLLOW the complete value: the call that completes the value rightly reports success before the rest is fed)
-            chunked = rng.random() < 0.5 and kind != "trailing-garbage" and ctx != "after-last"
+            chunked = rng.random() < 0.5 and kind != "trailing-garbage" and not ctx.startswith("after-last")
             if chunked:
                 # the same strict parse fed in pieces of 1..7 bytes: where the calls are cut must not let an extension through
                 cmds.append("LPC %d 0 %d x%s" % (1 | u8, rng.choice([1, 1, 2, 3, 5, 7]), h))
